@@ -412,6 +412,7 @@ class _Run:
             frame_writes = [0]
             n_frame = 0
             unsynced_since_resize = False
+            last_frame = None
 
             def deliver(c2, r2):
                 tty.cols, tty.rows = c2, r2
@@ -437,7 +438,15 @@ class _Run:
                 try:
                     if k == "frame":
                         n_frame += 1
-                        canv, exp_rows, cursor = self.build_canvas(op["f"], size[0], size[1])
+                        reused = bool(op.get("again")) and last_frame is not None and last_frame[3] == tuple(size)
+                        if reused:
+                            # the application draws the very same canvas object again (MainLoop re-rendering an
+                            # unchanged widget gets it back from the canvas cache)
+                            canv, exp_rows, cursor = last_frame[:3]
+                            res.probe("same_canvas_object_drawn_again")
+                        else:
+                            canv, exp_rows, cursor = self.build_canvas(op["f"], size[0], size[1])
+                        last_frame = (canv, exp_rows, cursor, tuple(size))
                         frame_writes[0] = 0
                         resized_during[0] = False
                         was_resized = screen._resized  # noqa: SLF001
@@ -464,6 +473,12 @@ class _Run:
                             unsynced_since_resize = False
                             if not ok:
                                 break
+                        elif not wrote and right_size and not was_resized and reused:
+                            # nothing written for a canvas that was drawn before: right exactly when the terminal
+                            # still shows it (no clear, no resize since)
+                            if not self.compare(exp_rows, cursor, "same-canvas-again"):
+                                break
+                            res.probe("same_canvas_again_nothing_written")
                         elif not wrote and right_size and not was_resized:
                             self.violate("C04.1", "frame-not-drawn", f"frame {n_frame}")
                     elif k == "clear":
@@ -681,9 +696,12 @@ class DisplayEngine(Engine):
         prev = None
         n = rng.randint(1, 12)
         resizes = 0
+        cur = (cols, rows)  # the size the application will see after the last handled resize
         for _ in range(n):
             r = rng.random()
-            if r < 0.62:
+            if r < 0.07 and prev is not None:
+                ops.append({"op": "frame", "f": prev, "again": True})
+            elif r < 0.62:
                 prev = self.gen_frame(rng, enc, cols, rows, prev)
                 ops.append({"op": "frame", "f": prev})
             elif r < 0.70:
@@ -703,14 +721,25 @@ class DisplayEngine(Engine):
                     ops.append({"op": "frame", "f": prev})
                 else:
                     ops.append({"op": "resize_event", "cols": c2, "rows": r2})
-                    if rng.random() < 0.25:
-                        ops.append({"op": "resize_event", "cols": c2, "rows": max(1, r2 - 1)})
+                    q = rng.random()
+                    if q < 0.25:
+                        r2 = max(1, r2 - 1)
+                        ops.append({"op": "resize_event", "cols": c2, "rows": r2})
+                    elif q < 0.5:
+                        # ... and back to the size the application last drew at (maximise and restore): the terminal
+                        # has lost part of the frame although the size the application sees has not changed
+                        ops.append({"op": "resize_event", "cols": cur[0], "rows": cur[1]})
+                        c2, r2 = cur
                 if rng.random() < 0.3:
                     prev = self.gen_frame(rng, enc, cols, rows, prev)
                     ops.append({"op": "frame", "f": prev})
                 ops.append({"op": "handle_resize"})
-                prev = self.gen_frame(rng, enc, cols, rows, prev)
-                ops.append({"op": "frame", "f": prev})
+                cur = (c2, r2)
+                if prev is not None and rng.random() < 0.3:
+                    ops.append({"op": "frame", "f": prev, "again": True})
+                else:
+                    prev = self.gen_frame(rng, enc, cols, rows, prev)
+                    ops.append({"op": "frame", "f": prev})
             elif r < 0.93:
                 ops.append({"op": "term_props", "colors": rng.choice(COLORS)})
             elif prev is not None:
